@@ -11,12 +11,22 @@ import mirq
 from mirq import show, access_path, AnchorMissing, const_of, walk
 from rulekit import Table
 from rules import common as C
+from rules import vocab as V
 
 TABLE = Table('C04')
 NOT_DECIDED = ('symlinks already present in the working directory; OS path semantics '
                '(std::path::Component is trusted).')
 
-TAINTED = {('metainfo::Metainfo', 'name'), ('metainfo::File', 'path')}
+TAINTED = set()
+
+
+def tainted(F):
+    """(struct, field) pairs holding strings the torrent controls and that name files: Metainfo's field read from key
+    "name" and File's path string (resolved by role / type, see rules/vocab.py)"""
+    t = {('metainfo::Metainfo', V.meta_name(F)), ('metainfo::File', V.file_path(F))}
+    TAINTED.clear()
+    TAINTED.update(t)
+    return t
 SINK_RX = re.compile(r'(^|::)fs::(write|read|rename|copy|remove_file|remove_dir|remove_dir_all|create_dir|create_dir_all|read_dir|metadata|hard_link|symlink)$'
                      r'|fs::File::(create|open|create_new|options)$|OpenOptions::open$|fs::OpenOptions')
 PATH_RX = re.compile(r'^std::path::(Path|PathBuf)::<?.*>?::(new|join|push|with_file_name|with_extension|set_file_name)$|^std::path::Path::(new|join)$|^std::path::PathBuf::(push|from|set_file_name)$')
@@ -119,6 +129,7 @@ def expand(f, e, depth=0):
             'a Normal-components sanitiser', floor=2)
 def r1(cx, rec):
     F = cx.F
+    tainted(F)
     safe = set(sanitisers(F))
     for s in safe:
         rec.site(F.fn(s), None, 'sanitiser recognised structurally (components(): only Normal parts kept)')
@@ -161,6 +172,33 @@ def r1(cx, rec):
         rec.need(any(x['name'] == fld for x in a['variants'][0]['fields']), 'source-missing/%s.%s' % (adt, fld), adt, None, 'tainted source field not found')
 
 
+PRESERVING = ('parent', 'as_path', 'as_ref', 'clone', 'to_path_buf', 'to_owned', 'deref', 'borrow', 'iter', 'into_iter', 'next',
+              'as_os_str', 'display')
+
+
+def _preserved(f, e, producers, depth=0):
+    """e is an element of a producer's result reached only through projections and path-preserving accessors"""
+    if depth > 12:
+        return False
+    k = e[0]
+    if k == 'call' and e[1] in producers:
+        return True
+    if k in ('field', 'variant', 'cast', 'try', 'await'):
+        return _preserved(f, e[1], producers, depth + 1)
+    if k == 'call' and e[4].get('name') in PRESERVING and e[2]:
+        return _preserved(f, e[2][0], producers, depth + 1)
+    if k == 'call' and e[4].get('name') == 'index' and e[2]:
+        return _preserved(f, e[2][0], producers, depth + 1)
+    if k == 'mvar' and e[2] is not None:
+        return _preserved(f, e[2], producers, depth + 1)
+    if k == 'var' and len(e) > 2 and isinstance(e[2], int):
+        ds = mirq.local_defs(f, e[2])
+        return bool(ds) and all(_preserved(f, d, producers, depth + 1) for d in ds)
+    if k == 'phi':
+        return all(_preserved(f, a, producers, depth + 1) for a in e[1])
+    return False
+
+
 @TABLE.rule('2', 'K2', 'every filesystem sink is classified: piece-hash name, sanitised range producer, or a path supplied by the local user', floor=8)
 def r2(cx, rec):
     F = cx.F
@@ -186,7 +224,14 @@ def r2(cx, rec):
             if any(x[0] == 'call' and x[1].endswith('hash_to_string') for x in allx) and any(x[0] == 'str' and x[1].startswith('.') for x in allx):
                 cls = 'piece-hash name'
             elif any(x[0] == 'call' and x[1] in producers for x in allx):
-                cls = 'element of the sanitised range producer'
+                # the sanitised path must reach the sink as it is (or its parent): nothing may rewrite it afterwards
+                if all(_preserved(f, ex, producers) for ex in exs if any(x[0] == 'call' and x[1] in producers for x in walk(ex))):
+                    cls = 'element of the sanitised range producer'
+                else:
+                    rec.violation('sanitised-path-rewritten/%s/%s' % (F.owner_fn(f).path, callee.split('::')[-1]), f, bb,
+                                  'the path handed to %s is derived from the sanitised path by further string/path processing (%s): '
+                                  'normalising after the check can re-introduce "..", a root or a prefix' % (callee, show(arg)[:120]))
+                    cls = 'rewritten'
             else:
                 root = mirq.root_var(arg)
                 owner = F.owner_fn(f)
